@@ -84,6 +84,10 @@ type C struct {
 	cl         *smtp.Client
 	rcpts      []string
 	lmtp       bool
+
+	// Set while the writer returned by cl.Data/cl.LMTPData is not closed,
+	// that is, while the server is in the middle of the message data.
+	dataOpen bool
 }
 
 // New creates the new instance of the C object, populating the required fields
@@ -464,6 +468,26 @@ func (c *C) smtpToLMTPData(ctx context.Context, hdr textproto.Header, body io.Re
 	return nil
 }
 
+// dataWriter wraps the message data writer of go-smtp to let C know whether
+// the data was terminated.
+type dataWriter struct {
+	io.WriteCloser
+	c *C
+}
+
+func (w dataWriter) Close() error {
+	w.c.dataOpen = false
+	return w.WriteCloser.Close()
+}
+
+func (c *C) trackData(wc io.WriteCloser, err error) (io.WriteCloser, error) {
+	if err != nil {
+		return nil, err
+	}
+	c.dataOpen = true
+	return dataWriter{WriteCloser: wc, c: c}, nil
+}
+
 // Data sends the DATA command to the remote server and then sends the message header
 // and body.
 //
@@ -476,7 +500,7 @@ func (c *C) Data(ctx context.Context, hdr textproto.Header, body io.Reader) erro
 		return c.smtpToLMTPData(ctx, hdr, body)
 	}
 
-	wc, err := c.cl.Data()
+	wc, err := c.trackData(c.cl.Data())
 	if err != nil {
 		return c.wrapClientErr(err, c.serverName)
 	}
@@ -499,7 +523,7 @@ func (c *C) Data(ctx context.Context, hdr textproto.Header, body io.Reader) erro
 func (c *C) LMTPData(ctx context.Context, hdr textproto.Header, body io.Reader, statusCb func(string, *smtp.SMTPError)) error {
 	defer trace.StartRegion(ctx, "smtpconn/LMTPDATA").End()
 
-	wc, err := c.cl.LMTPData(statusCb)
+	wc, err := c.trackData(c.cl.LMTPData(statusCb))
 	if err != nil {
 		return c.wrapClientErr(err, c.serverName)
 	}
@@ -530,6 +554,15 @@ func (c *C) Noop() error {
 // Close sends the QUIT command, if it fails - it directly closes the
 // connection.
 func (c *C) Close() error {
+	if c.dataOpen {
+		// Data or LMTPData gave up in the middle of the message. Any command
+		// sent now (including QUIT) makes net/textproto close the pending
+		// dot-writer first, that is, send the end-of-data marker: the server
+		// would accept the truncated message as a complete one. Drop the
+		// connection instead, the server discards the partial data.
+		return c.DirectClose()
+	}
+
 	c.cl.CommandTimeout = 5 * time.Second
 
 	if err := c.cl.Quit(); err != nil {
@@ -562,5 +595,6 @@ func (c *C) DirectClose() error {
 	c.cl.Close()
 	c.cl = nil
 	c.serverName = ""
+	c.dataOpen = false
 	return nil
 }
